@@ -200,6 +200,12 @@ theorem inv_reposition {tb : Tab K V} (k : K) (h : tb.Inv) : (tb.reposition lt? 
     · exact inv_patch_perm k h (repositionM_perm lt tb.m k)
     · exact h
 
+theorem inv_valueChanged {tb : Tab K V} (k : K) (h : tb.Inv) : (tb.valueChanged lt? k).Inv := by
+  unfold valueChanged
+  split
+  · exact h
+  · exact inv_reposition lt? k h
+
 theorem linkNew_perm (tb : Tab K V) (k : K) (v : V) : (tb.linkNew lt? k v).Perm ((k, v) :: tb.m) := by
   have happ : (tb.m ++ [(k, v)]).Perm ((k, v) :: tb.m) := by
     have := (List.perm_middle (l₁ := tb.m) (l₂ := []) (a := (k, v)))
@@ -217,7 +223,7 @@ theorem inv_putAux {tb : Tab K V} (k : K) (v : V) (h : tb.Inv) : (tb.putAux lt? 
   unfold putAux
   by_cases hh : has tb.m k = true
   · simp only [hh, if_true]
-    apply inv_reposition
+    apply inv_valueChanged
     exact inv_of_superset h (by simpa using h.1) (by simp)
   · simp only [hh]
     have hp := linkNew_perm lt? tb k v
